@@ -23,6 +23,7 @@ RULE = (
     "numeric literals. Non-trivial: >= 3 statement kinds and the layouts differ from the canonical one in >= 5 places; distinct by sha1 of "
     "(AST, layout texts)"
 )
+RULE += " Statements whose text ends in a chosen token class (every literal spelling, hex, variable, call) are placed before ':', ELSE, a comment and the line end; layouts also draw blanks at the line end; ELSE IF chains of up to three arms; comment lines of up to 244 characters."
 ASSUMPTIONS = [
     "layout freedom is limited to what Color BASIC and the README allow: no blanks between digits, keywords and identifiers stay separated, "
     "blanks inside string literals / DATA items / comments are content",
